@@ -190,8 +190,53 @@ def check_config(run, pkg, fname, ndim, tri, style):
                    f"component {c} = real lower corner + sum_k s_k * hmatrix[k][{c}] (scaled coordinates mapped through the cell incl. its origin)",
                    f"code: {sp.sstr(g)[:160]}", witness=None if ok is not False else how, loc=loc, sound=True)
         else:
+            if ent[0] == "phi":
+                # the wrap sits under a run-time test: the test must hold whenever some coordinate lies outside ITS OWN axis range
+                gv = guarded_wrap(ent, P, kws["boxbounds"], ndim)
+                if gv is not None:
+                    okg, detg, witg, ent = gv
+                    run.ob("R-ALG", fq, key + ":guard", okg, "a test that decides whether the wrap is applied holds whenever a coordinate lies outside its own axis range", detg,
+                           witness=witg, loc=loc, sound=True)     # the extracted test evaluated on a concrete frame that needs wrapping
             ok, det, wit = match_wrap(ent, tr, p_c, ref["lo"][c], ref["hi"][c], ref["L"][c])
             run.ob("R-ALG", fq, key, ok, f"wrapped component {c}: + L if below lo, - L if above hi, else unchanged", det, witness=wit, loc=loc, sound=True)
+
+
+def guarded_wrap(ent, P, B, ndim):
+    """ent = phi(test, wrapped, raw) (either order).  Evaluate the test on concrete single-atom frames in which exactly one
+    coordinate lies outside its own axis range but inside the overall extent of the box: False there = the wrap is skipped."""
+    import numpy as np
+    from ..concrete import ev as cev
+    test, a, b = ent[1], ent[2], ent[3]
+    has_where = lambda t: any(x[0] == "call" and x[1] == "numpy.where" for x in walk(t))
+    if has_where(a) == has_where(b):
+        return None
+    wrapped = a if has_where(a) else b
+    pol = has_where(a)          # the wrap is applied when test == pol
+    pbase, bbase = root_alloc(P), root_alloc(B)
+    if pbase is None or bbase is None:
+        return None
+    bounds = np.array([[0.0, 40.0], [5.0, 13.0], [2.0, 10.0]])[:ndim]
+    inside = np.array([20.0, 9.0, 6.0])[:ndim]
+    bad = None
+    try:
+        for c in range(ndim):
+            for sidev, val in (("below lo", bounds[c, 0] - 0.5), ("above hi", bounds[c, 1] + 0.5)):
+                if not (bounds[:, 0].min() <= val <= bounds[:, 1].max()):
+                    continue
+                pos = np.array([inside.copy()])
+                pos[0, c] = val
+                env = {pbase: pos, bbase: bounds}
+                r = bool(cev(test, env))
+                if r != pol:
+                    bad = (f"bounds {bounds.tolist()}, atom at {pos[0].tolist()}: coordinate {c} is {sidev} of its axis but the test is {r}: the frame is returned unwrapped")
+                    break
+            if bad:
+                break
+    except Exception as e:  # noqa
+        return None, f"test not evaluable ({type(e).__name__}): {show(strip_alloc(test))[:80]}", None, wrapped
+    if bad:
+        return False, show(strip_alloc(test))[:120], bad, wrapped
+    return None, f"test holds on the sampled frames (not a proof): {show(strip_alloc(test))[:100]}", None, wrapped
 
 
 def _other_reads(rr) -> bool:
@@ -324,6 +369,10 @@ def check_wrapper(run, pkg, wname, inner):
     ok_args = args[1:] == [("sym", p) for p in params[1:]] and params[1:] == fi.params[1:]
     run.ob("R-DISPATCH", fq, "arguments", True if ok_args else None, f"wrapper forwards its parameters {fi.params[1:]} to {inner} in order", [show(a_) for a_ in args[1:]],
            witness=None if ok_args else "dimension / selection arguments not forwarded", loc=loc_of(it, ce))
+    from .c18 import memo_decorator
+    dec = memo_decorator(fi)
+    run.ob("R-HANDLE", fq, "fresh-read", False if dec else True, "every call reads the file as it is now (no result cache keyed on the file name)", f"@{dec}" if dec else "no memoising decorator",
+           witness=None if not dec else f"@{dec}: a dump rewritten at the same path (or a trajectory still growing) is returned as first read - wrong frame count, timesteps and coordinates", loc=fi.loc(), sound=True)
     snap = ce.data["result"]
     brk = [e for e in it.events if e.kind == "break"]
     ok_b = len(brk) == 1 and any(g == ("un", "not", snap) and pol for g, pol in brk[0].guards) and brk[0].seq > ce.seq
